@@ -73,7 +73,7 @@ package revocation
 
 // A downloaded list is used only when it matches the spec, its encoded list inflates and its signature verifies.
 //@ func (*StatusList2021).verify
-//@   prop C11
+//@   prop C01 C11
 //@   assume-benign
 //@   ensures [only-validated-and-signature-checked-lists] isNilIface(result.1) ==>
 //@        isNilIface(ret(call (*StatusList2021).validate #1).1) && result.0 == ret(call (*StatusList2021).validate #1).0 && result.0 != nil
@@ -84,7 +84,7 @@ package revocation
 // update: the record that is stored and used for the revocation check is built from the list downloaded
 // from the URL the credential names, verified, about that very URL, with all of its bits.
 //@ func (*StatusList2021).update
-//@   prop C11
+//@   prop C01 C11
 //@   assume-benign
 //@   ensures isNilIface(result.1) ==> result.0 != nil
 //@   ensures [record-is-the-verified-list-of-that-url] isNilIface(result.1) ==>
@@ -99,7 +99,7 @@ package revocation
 // statusList answers from the stored copy or from a fresh download of the same URL, nothing else; an
 // external list that is expired or older than maxAgeExternal is refreshed first.
 //@ func (*StatusList2021).statusList
-//@   prop C11
+//@   prop C01 C11
 //@   assume-benign
 //@   ensures isNilIface(result.1) ==> result.0 != nil
 //@   ensures [stored-or-freshly-downloaded-list-of-that-url] isNilIface(result.1) ==> arg(call (*StatusList2021).loadCredential #1, 1) == statusListCredential
@@ -142,7 +142,7 @@ package revocation
 // Every revocation row of the issuer record has its bit set in the bit string that is compressed,
 // signed and stored (loop invariant over the rows; setBit's contract keeps the earlier bits).
 //@ func (*StatusList2021).updateCredential
-//@   prop C11
+//@   prop C01 C11
 //@   modifies nothing
 //@   requires issuerRecord != nil
 //@   loop 1 invariant expanded != nil && len(*expanded) == defaultBitstringLengthInBytes && isFresh(*expanded) && isFresh(expanded)
@@ -186,7 +186,7 @@ package revocation
 // second revocation fail), then the issuer record is loaded WITH its revocation rows for that same list,
 // and the list signed from it replaces the stored one; every error aborts (rolls back) the transaction.
 //@ func (*StatusList2021).Revoke$1
-//@   prop C11
+//@   prop C01 C11
 //@   call (*gorm.DB).Create #1 requires [revocation-row-is-the-entry] isNilIface(ret(call lockCredentialRecord #1)) && arg(call lockCredentialRecord #1, 0) == tx && arg(call lockCredentialRecord #1, 1) == entry.StatusListCredential
 //@        && arg(0) == tx && arg(1).(*revocationRecord).StatusListCredential == entry.StatusListCredential && arg(1).(*revocationRecord).StatusListIndex == statusListIndex
 //@   call (*gorm.DB).First #1 requires [record-loaded-with-its-revocations] arg(0) == ret(call (*gorm.DB).Preload #1) && arg(call (*gorm.DB).Preload #1, 0) == tx && arg(call (*gorm.DB).Preload #1, 1) == "Revocations"
@@ -206,7 +206,7 @@ package revocation
 
 // Serving a list: re-signing loads the record WITH its revocation rows for the URL being served.
 //@ func (*StatusList2021).Credential$1
-//@   prop C11
+//@   prop C01 C11
 //@   call (*gorm.DB).First #1 requires [record-loaded-with-its-revocations] arg(0) == ret(call (*gorm.DB).Preload #1) && arg(call (*gorm.DB).Preload #1, 0) == tx && arg(call (*gorm.DB).Preload #1, 1) == "Revocations"
 //@        && arg(1) == any(issuerRecord) && len(arg(2)) == 2 && arg(2)[0] == any("subject_id = ?") && arg(2)[1] == any(statusListCredentialURL)
 //@        && isNilIface(ret(call lockCredentialRecord #1)) && arg(call lockCredentialRecord #1, 1) == statusListCredentialURL
@@ -215,7 +215,7 @@ package revocation
 
 // Serving a list: the stored credential is returned only when it stays valid for minTimeUntilExpired; otherwise it is re-signed.
 //@ func (*StatusList2021).Credential
-//@   prop C11
+//@   prop C01 C11
 //@   ensures [stored-list-only-if-not-about-to-expire] isNilIface(result.1) ==>
 //@        ret(call (*StatusList2021).isManaged #1) == true && arg(call (*StatusList2021).isManaged #1, 1) == ret(call (*StatusList2021).statusListURL #1)
 //@        && ( ( isNilIface(ret(call (*StatusList2021).loadCredential #1).1) && did(call (time.Time).Before #1) && ret(call (time.Time).Before #1) == true
